@@ -53,6 +53,12 @@ class Recv(_rpyc.Service):
     def exposed_drop(self, key):
         self.held.pop(key, None)
 
+    def exposed_make(self, i, wrap=False):
+        """an object of the peer's own (part P): pair_values()[i], bare or inside a tuple next to a reference"""
+        v = pair_values()[i][1]
+        self.made = [v, [0]]
+        return (v, self.made[1]) if wrap else v
+
     def exposed_mutate(self, x):
         c = x.__class__.__name__
         if c == "list":
@@ -185,6 +191,85 @@ def check_values(cases):
     if exc is not None or sch.outcome != "done":
         viol.append(("harness:%s" % sch.outcome, repr(exc)))
     return len(cases), viol, kinds
+
+
+# ------------------------------------------------------------------ part P: ordered pairs (the decision must not depend on history)
+def pair_values():
+    """one representative per (type, by-value / by-reference) class"""
+    vals = [("int", 5), ("bool", True), ("none", None), ("float", 1.5), ("complex", 1j), ("str", "s"), ("bytes", b"b"),
+            ("tuple", (1, "a")), ("empty-tuple", ()), ("frozenset", frozenset([1, 2])), ("empty-frozenset", frozenset()),
+            ("slice", slice(1, 3, None)), ("ellipsis", Ellipsis), ("notimplemented", NotImplemented),
+            ("nested", (1, (frozenset([2]), slice(None, 2, None))))]
+    keep = ("list", "dict", "object", "function", "class", "intenum", "namedtuple", "strsub", "intsub", "floatsub", "bytessub", "tuplesub",
+            "frozensetsub", "tuple-with-list", "frozenset-with-intsub", "frozenset-with-namedtuple", "slice-with-list",
+            "slice-with-strsub", "empty-list", "falsy-instance")
+    nd = dict(V.nondumpables())
+    vals += [(k, nd[k]) for k in keep]
+    return vals
+
+
+def check_pairs(first_indices):
+    """for every ordered pair (first, second): `first` is sent on a fresh connection, then `second` travels (a) alone,
+    (b) inside a tuple next to a reference, (c) as a bare result - each time it must arrive exactly as it does on a
+    connection without that history (the statement's predicate)"""
+    env.silence_unraisable()
+    viol = []
+    n = [0]
+    vals = pair_values()
+    for fi in first_indices:
+        fname, first = vals[fi]
+        svc = Recv()
+        w = pair.World(Recv(), svc, CFG, CFG)
+
+        def main():
+            w.start_server()
+            root = w.cconn.root
+            marker = [0]
+            try:
+                root.probe(first)
+                root.probe((first, marker))
+                root.make(fi)
+                root.make(fi, True)
+            except S.SimAbort:
+                raise
+            except Exception as ex:    # noqa
+                viol.append(("send-raised:%s" % type(ex).__name__, "first=%s: %r" % (fname, ex)))
+                return
+            for si, (sname, second) in enumerate(vals):
+                exp = expected_view(second)
+                for ctx in ("alone", "beside-a-reference", "as-result", "as-result-beside-a-reference"):
+                    n[0] += 1
+                    del svc.seen[:]
+                    try:
+                        if ctx == "alone":
+                            root.probe(second)
+                            x, e = svc.seen[0], exp
+                        elif ctx == "beside-a-reference":
+                            root.probe((second, marker))
+                            x, e = svc.seen[0], ("tuple", [exp, ("ref",)])
+                        elif ctx == "as-result":
+                            x, e = root.make(si), exp
+                        else:
+                            x, e = root.make(si, True), ("tuple", [exp, ("ref",)])
+                    except S.SimAbort:
+                        raise
+                    except Exception as ex:    # noqa
+                        viol.append(("send-raised:%s" % type(ex).__name__, "after %s: %s %s: %r" % (fname, sname, ctx, ex)))
+                        continue
+                    r = view_matches(x, e)
+                    if r:
+                        kind = "value-arrived-as-reference" if "as a reference" in r else (
+                            "reference-arrived-as-value" if "by value" in r else "value-changed")
+                        viol.append(("history-dependent-transfer:%s:%s:%s" % (kind, type(second).__name__, ctx),
+                                     "after sending %s: %s (%s): %s" % (fname, sname, ctx, r)))
+                    x = None
+            del svc.seen[:]
+            del root
+
+        sch, _, exc = pair.run(main, horizon=100000, world=w, max_steps=5000000)
+        if exc is not None or sch.outcome != "done":
+            viol.append(("harness:%s" % sch.outcome, "first=%s %r" % (fname, exc)))
+    return n[0], viol[:20]
 
 
 # ------------------------------------------------------------------ part H: histories
@@ -467,6 +552,17 @@ def main(tier, replay_obj=None):
                 for h, v in bad:
                     for sig, text in v:
                         res.violation(sig, "history %r: %s" % (list(h), text), {"part": "hist", "kind": kind, "chain": chain, "history": [list(e) for e in h]})
+    nv = len(pair_values())
+    outs = runner.pmap(check_pairs, [([i],) for i in range(nv)])
+    m = sum(o[0] for o in outs)
+    res.parts["ordered-pairs"] = {"values": nv, "pairs_x_contexts": m}
+    res.evaluations += m
+    res.states += m
+    res.transitions += m
+    res.traces += m
+    for _, viol in outs:
+        for sig, text in viol:
+            res.violation(sig, text, {"part": "pairs"})
     n, viol = check_obtain_deliver()
     res.evaluations += n
     res.parts["obtain-deliver"] = {"checks": n}
